@@ -72,6 +72,10 @@ def simulate_and_monitor(ctx, spec, case, monitors, nontrivial=None, key_extra='
     """build, run the schedule, feed every captured history to the monitors"""
     ctx.count('scenarios')
     ctx.count('evaluations')
+    if ctx.tier == 'thorough' and ctx.prop in ('C01', 'C03'):
+        # always-on sanitizer of the thorough tier: the sign-constraint class invariants of C19 are armed inside the simulations
+        from . import c19 as C19
+        C19.arm()
     try:
         b = B.build(spec)
     except Exception as ex:
@@ -81,6 +85,12 @@ def simulate_and_monitor(ctx, spec, case, monitors, nontrivial=None, key_extra='
     runs = B.run_schedule(b)
     ctx.current_built = b
     histories = list(b.captures) + [(B.extract(b), runs)]
+    if ctx.tier == 'thorough' and ctx.prop in ('C01', 'C03'):
+        from . import c19 as C19
+        ctx.counters['invariant_evaluations'] = C19.LOG['evals']
+        if C19.LOG['bad']:
+            ctx.violation('sanitizer:sign-constrained-quantity-invalid-inside-a-simulation', {'log': C19.LOG['bad'][:5]}, case)
+            del C19.LOG['bad'][:]
     sig = topo_signature(spec)
     ctx.seen('signatures', sig)
     ctx.seen('elements_in_chain', len(spec['chain']) + 1)
